@@ -78,7 +78,10 @@ class ParserState:
         assert self.parser
 
         if skip := self.parser.rules.get("SKIP"):
-            return skip.parse(self, pairs)
+            # SKIP is the optimizer's fusion of WHITESPACE and COMMENT. Like
+            # them, it must not record expectations: it's not a grammar rule.
+            with self.suppress_failures():
+                return skip.parse(self, pairs)
 
         # Unoptimized whitespace and comment rules.
         whitespace_rule = self.parser.rules.get("WHITESPACE")
